@@ -143,10 +143,10 @@ Proof.
     + destruct (is_state sh n); [|exists r; split; [reflexivity | exact H]].
       destruct (nested_accepts _ _ now' (agree_next_state r m n H)) as (r1 & Ha1 & Hg1).
       destruct (nested (next_state m n) now') as [m1 e1]. cbn [fst snd] in *.
-      assert (Hg1' : agree r1 (m1 <| should := should (next_state m n) |>)) by (intros s; apply Hg1).
+      set (m1r := if engaged m1 then m1 <| should := should (next_state m n) |> else m1).
+      assert (Hg1' : agree r1 m1r) by (unfold m1r; destruct (engaged m1); intros s; apply Hg1).
       destruct (IH _ _ Hg1') as (r2 & Ha2 & Hg2).
-      match goal with |- context [run_actions sh nested rest ?mm] =>
-        destruct (run_actions sh nested rest mm) as [m2 e2] end.
+      destruct (run_actions sh nested rest m1r) as [m2 e2].
       cbn [fst snd] in *. exists r2. split; [|exact Hg2].
       eapply accepts_app; [apply off_idle_accepts|].
       eapply accepts_app; [apply off_default_accepts|].
